@@ -143,15 +143,18 @@ def classify(err, ranges):
     is_cmp = sfn == "utils.ConstantTimeCmp"
     is_setbytes = sfn in ("sm2/internal/fiat.(*SM2Element).SetBytes", "sm2/internal/fiat.(*SM2ScalarElement).SetBytes")
     # Verdict sites (both levels): the statement allows "only the final accept/reject verdicts" to depend on the secret.
-    if (is_cmp or is_setbytes or sfn == "sm2.TestPrivateKey") and not loop and kind == "branch":
-        return scen, "allowed", dict(info, why="verdict branch outside every loop")
+    decision = bool(f and any(a <= line <= b for a, b in (f.get("decision_ifs") or [])))
+    info["decision_if"] = decision
+    if (is_cmp or is_setbytes or sfn == "sm2.TestPrivateKey") and not loop and decision and kind == "branch":
+        # the condition of an `if` whose body always returns: an accept/reject verdict, outside every loop
+        return scen, "allowed", dict(info, why="verdict: condition of an if that always returns, outside every loop")
     if sfn in ("sm2/internal.(*SM2Point).bytes", "sm2/internal.(*SM2Point).GetAffineX") and kind == "branch" and f and f["first_if"][0] > 0 and f["first_if"][0] <= line <= f["first_if"][1]:
         return scen, "allowed", dict(info, why="is-infinity verdict at the top of the conversion")
     snames = [short(n) for n in names]
     if fn.startswith("math/big.") and any(n.endswith(").ToBigInt") for n in snames) and any(n.endswith("(*SM2Point).GetAffineX") for n in snames) \
             and any(("SetBytes" in n or "norm" in n or "setBytes" in n) for n in snames[:4]):
         return scen, "allowed", dict(info, why="big.Int normalisation while boxing the result of GetAffineX")
-    if scen.startswith("vgL2_") and sfn.startswith("sm2.") and kind == "branch" and f and any(a <= line <= b for a, b in (f.get("decision_ifs") or [])):
+    if scen.startswith("vgL2_") and sfn.startswith("sm2.") and kind == "branch" and decision:
         return scen, "allowed", dict(info, why="accept/reject decision (if ... { continue | return | break }) in the entry point")
     if scen.startswith("vgL2_"):
         # name the deny rule the report falls under (diagnostic only: every non-verdict report is a violation)
